@@ -114,6 +114,25 @@ AccountJobs ==
     J("leaf", <<>>, D1(AcctsX \cup {"Assets:"})), J("account_sortkey", <<>>, D1(Accts \cup {"Foo:A"})),
     J("possign", <<>>, {<<x, a>> : x \in {<<-5, 2>>, <<0, 1>>, <<1, 4>>, <<3, 1>>}, a \in Accts \cup {"Foo:A"}})>>
 
+\* the same account functions on connections to ledgers that rename the root types (options name_assets ..):
+\* translated names, a partial renaming, the assets root alone renamed, the English names permuted
+TypeTablesG == <<RootNames,
+                 <<"Actif", "Passif", "Capital", "Revenus", "Depenses">>,
+                 <<"Assets", "Liabilities", "Equity", "Revenue", "Costs">>,
+                 <<"Cash", "Liabilities", "Equity", "Income", "Expenses">>,
+                 <<"Income", "Assets", "Expenses", "Liabilities", "Equity">> >>
+\* names of 1..3 components under the roots of T, the English roots (known to T or not), an unknown root
+AcctsOf(T) == {JoinAcc(<<T[r]>> \o p) : r \in 1..5, p \in Paths(2)}
+              \cup {JoinAcc(<<RootNames[r]>> \o p) : r \in 1..5, p \in Paths(1)} \cup {"Foo:A"}
+Amts == {<<-5, 2>>, <<0, 1>>, <<1, 4>>, <<3, 1>>}
+TypedJobs(T) ==
+  <<J("account_sortkey_t", T, D1(AcctsOf(T)))>>
+  \o Each(<<"possign_t", "possign_amt", "possign_pos", "possign_inv">>,
+          LAMBDA f : J(f, T, {<<x, a>> : x \in Amts, a \in AcctsOf(T)}))
+  \o Each(<<1, 2, 3, 4, 5>>, LAMBDA r : J("possign_tk", T \o <<T[r] \o ":A:Bb">>, D1(Amts)))
+  \o Each(<<"Assets:A", "Expenses", "Income:C1">>, LAMBDA a : J("possign_tk", T \o <<a>>, D1(Amts)))
+TypedAccountJobs == Flatten(Each(TypeTablesG, TypedJobs))
+
 StringJobs ==
   Each(<<"upper", "lower", "length">>, LAMBDA f : J(f, <<>>, D1(AllStr \cup {"az AZ", "a1:Bz"})))
   \o <<J("substr", <<>>, {<<s, a, b>> : s \in AllStr, a \in Idx, b \in Idx}),
@@ -141,7 +160,7 @@ NumericJobs ==
   \o Each(<<"int", "decimal">>, LAMBDA t : J("cast", <<t, "decx">>, D1(Specials)))
 
 Jobs == CASE Family = "calendar" -> CalendarJobs
-          [] Family = "accounts" -> AccountJobs
+          [] Family = "accounts" -> AccountJobs \o TypedAccountJobs
           [] Family = "strings"  -> StringJobs
           [] Family = "numeric"  -> NumericJobs
 
